@@ -32,6 +32,7 @@ pub const D_INTO_SLICE: u8 = 11;
 pub const D_FORGET_DRAIN: u8 = 12;
 pub const D_DROP_ONLY: u8 = 13;
 pub const D_DRAIN_NTH: u8 = 14;
+pub const D_SPLICE_END: u8 = 15;
 
 /// Vec<D> with ids 0,1,2; one operation; container drop; arena stays (no destructor runs there).
 pub fn dl<const OP: u8>() {
@@ -125,6 +126,16 @@ pub fn dl<const OP: u8>() {
                     }
                     drop(d);
                     vassert!(DROPS[0] == 1 && DROPS[1] == 1 && DROPS[2] == 1, "NEVER: [C15] drained items stepped over by nth() were not dropped exactly once");
+                }
+                D_SPLICE_END => {
+                    // splice reaching the end of the vector, dropped without consuming the removed items
+                    let v = vo.as_mut().unwrap();
+                    {
+                        let _sp = v.splice(1.., [D(5), D(6)]);
+                    }
+                    vassert!(DROPS[1] == 1 && DROPS[2] == 1, "NEVER: [C15] elements removed by splice not dropped exactly once");
+                    vassert!(DROPS[0] == 0 && DROPS[5] == 0 && DROPS[6] == 0, "NEVER: [C15] elements that are still in the vector after splice were dropped");
+                    vassert!(v.len() == 3 && v[0].0 == 0 && v[1].0 == 5 && v[2].0 == 6, "NEVER: [C13] contents after splice");
                 }
                 D_INTO_ITER => {
                     let front: usize = kani::any();
@@ -427,6 +438,7 @@ dh!(dl_into_boxed, 10, dl::<D_INTO_BOXED>());
 dh!(dl_into_slice, 10, dl::<D_INTO_SLICE>());
 dh!(dl_drop_only, 10, dl::<D_DROP_ONLY>());
 dh!(dl_drain_nth, 10, dl::<D_DRAIN_NTH>());
+// (dl_splice_end: timeout 25 min, not registered)
 dh!(bx_basic_h, 10, bx_basic());
 dh!(bx_partial_ord_h, 10, bx_partial_ord());
 dh!(bx_downcast_h, 10, bx_downcast());
